@@ -92,6 +92,16 @@ func integerCodecRule(P *Program, R *Report) {
 			}
 		}
 		R.decide(rule, kIntUnmJSON+":quoted-unsigned", "the quoted (base64) branch decodes with SetBytes, i.e. as an unsigned magnitude", ok, "", P.Pos(fn.Pos()))
+		// ... and in no other way: a quoted value has one reading (a second reading for "digits only" makes the base64
+		// texts that happen to be all digits decode to another number)
+		unquoted := func(a Atom) bool {
+			d := desc(a.V)
+			return strings.HasPrefix(d, "(arg#1[0]") && ((strings.Contains(d, "!=34") && a.Want == True) || (strings.Contains(d, "==34") && a.Want == False))
+		}
+		mp(P, R, rule, kIntUnmJSON+":quoted-one-reading", "nil on the quoted branch => the value was decoded by SetBytes of the base64 text (the only reading of a quoted value)", fn, AcceptNilErr(0), &MustPass{Exempt: unquoted, Instr: func(_ *ssa.Function, i ssa.Instruction) bool {
+			c, isC := i.(*ssa.Call)
+			return isC && bigMethod(c) == "SetBytes" && desc(callArgs(c)[0]) == "arg#0"
+		}})
 	}
 	if fn := mustFunc(P, R, rule, kIntMarText); fn != nil {
 		mp(P, R, rule, kIntMarText+":refuses-negative", "text is produced only for a non-negative integer", fn, AcceptNilErr(1), &MustPass{Match: func(a Atom) bool {
